@@ -89,7 +89,7 @@ class C02(Check):
             "framer that issues start/run/ready bids with new periods and stop/abort bids at drawn ticks; tick period from "
             "{1/16, 1/8, 0.1, 0.05, 0.2, 0.3, 0.25, 1} and tasker periods from {0, < P, = P, multiples, non-multiples, decimal}; "
             "4-60 ticks; self-aborting and self-stopping taskers; non-trivial = some tasker period exceeds the tick period or a "
-            "bid changed a period or a tasker aborted; distinct = digest of the send sequence")
+            "bid changed a period or a tasker aborted; variations: all periods >= 2 ticks, non-zero start stamps, a second house with taskers of the same names; distinct = digest of the send sequence")
     components = {"real": ["ioflo.base.building.Builder", "ioflo.base.skedding.Skedder.run", "ioflo.base.tasking / framing runners",
                            "ioflo.base.wanting (bids)", "Store time"],
                   "stub": ["script file (served from memory)", "Rec action, probe runner (harness)"]}
